@@ -22,6 +22,9 @@ ENVS = [gen.ENV0, gen.ENV_EXPR,
 def shared_forward_grammar(rng):
     F = ("fwd", 0)
     t1, t2, t3 = (rng.choice([("lit", "b"), ("lit", ","), ("word", "ab"), ("lit", ")")]) for _ in range(3))
+    # results names on what FOLLOWS the shared Forward: a failed alternative must not leave its names on the memoized result
+    nm = lambda t, n: rng.choice([t, t, ("name", n, t), ("namestar", n, t)])
+    t1, t2, t3 = nm(t1, "p"), nm(t2, "q"), nm(t3, rng.choice("pr"))
     shape = rng.choice(["mf", "or", "opt", "star"])
     if shape == "opt":
         return ("and", ("opt", ("and", F, t1, t2)), F, t3)
